@@ -723,4 +723,126 @@ proof {
     }
 }
 @end
+
+@type src/filedb/inner/dbxxx.rs | DbXxxIter
+@fn src/filedb/inner/dbxxx.rs | impl<KT: DbMapKeyType> DbXxxIter<KT> | new
+@opts mutparam=db_map
+@serves C04
+@requires
+db_map.inv()
+@ensures
+db_map.healthy() ==> r is Ok,
+r is Ok ==> r->Ok_0.iter.db_map.same_files(&db_map) && r->Ok_0.iter.buckets_size == db_map.htx_file.0.buckets_size && r->Ok_0.iter.buckets_idx == 0 && r->Ok_0.iter.key_offset.val == 0,
+r is Ok ==> forall|w: MapW| #[trigger] map_ok(db_map.mb(), w) ==> iter_inv(w, db_map.mb().n, 0, 0, r->Ok_0.iter.remaining_item_count as nat, 0)
+@end
+@fn src/filedb/inner/dbxxx.rs | impl<KT: DbMapKeyType> Iterator for DbXxxIter<KT> | size_hint
+@serves C04
+@ensures
+r.0 == self.iter.remaining_item_count as usize, r.1 == Some(self.iter.remaining_item_count as usize)
+@end
+@fn src/filedb/inner/dbxxx.rs | impl<KT: DbMapKeyType> Iterator for DbXxxIter<KT> | next
+@opts mapopt
+@serves C04 C15
+@requires
+old(self).iter.db_map.inv(), old(self).iter.db_map.healthy(), old(self).iter.buckets_size == old(self).iter.db_map.htx_file.0.buckets_size,
+exists|w: MapW, k: nat| #[trigger] map_ok(old(self).iter.db_map.mb(), w) && #[trigger] iter_inv(w, old(self).iter.db_map.mb().n, old(self).iter.key_offset.val as nat, old(self).iter.buckets_idx as int, old(self).iter.remaining_item_count as nat, k)
+@ensures
+final(self).iter.db_map.same_files(&old(self).iter.db_map), final(self).iter.buckets_size == old(self).iter.buckets_size,
+forall|w: MapW, k: nat| #[trigger] map_ok(old(self).iter.db_map.mb(), w) && #[trigger] iter_inv(w, old(self).iter.db_map.mb().n, old(self).iter.key_offset.val as nat, old(self).iter.buckets_idx as int, old(self).iter.remaining_item_count as nat, k) ==>
+    iter_inv(w, old(self).iter.db_map.mb().n, final(self).iter.key_offset.val as nat, final(self).iter.buckets_idx as int, final(self).iter.remaining_item_count as nat, if k < total(w.cs) { (k + 1) as nat } else { k })
+    && iter_next_post(w, old(self).iter.db_map.mb().n, k, r, final(self).iter.key_offset.val as nat, final(self).iter.buckets_idx as int, final(self).iter.remaining_item_count as nat)
+@end
+
+@type src/filedb/inner/dbxxx.rs | DbXxxIntoIter
+@fn src/filedb/inner/dbxxx.rs | impl<KT: DbMapKeyType> DbXxxIntoIter<KT> | new
+@opts mutparam=db_map
+@serves C04
+@requires
+db_map.inv()
+@ensures
+db_map.healthy() ==> r is Ok,
+r is Ok ==> r->Ok_0.iter.db_map.same_files(&db_map) && r->Ok_0.iter.buckets_size == db_map.htx_file.0.buckets_size && r->Ok_0.iter.buckets_idx == 0 && r->Ok_0.iter.key_offset.val == 0,
+r is Ok ==> forall|w: MapW| #[trigger] map_ok(db_map.mb(), w) ==> iter_inv(w, db_map.mb().n, 0, 0, r->Ok_0.iter.remaining_item_count as nat, 0)
+@end
+@fn src/filedb/inner/dbxxx.rs | impl<KT: DbMapKeyType> Iterator for DbXxxIntoIter<KT> | size_hint
+@serves C04
+@ensures
+r.0 == self.iter.remaining_item_count as usize, r.1 == Some(self.iter.remaining_item_count as usize)
+@end
+@fn src/filedb/inner/dbxxx.rs | impl<KT: DbMapKeyType> Iterator for DbXxxIntoIter<KT> | next
+@opts mapopt
+@serves C04 C15
+@requires
+old(self).iter.db_map.inv(), old(self).iter.db_map.healthy(), old(self).iter.buckets_size == old(self).iter.db_map.htx_file.0.buckets_size,
+exists|w: MapW, k: nat| #[trigger] map_ok(old(self).iter.db_map.mb(), w) && #[trigger] iter_inv(w, old(self).iter.db_map.mb().n, old(self).iter.key_offset.val as nat, old(self).iter.buckets_idx as int, old(self).iter.remaining_item_count as nat, k)
+@ensures
+final(self).iter.db_map.same_files(&old(self).iter.db_map), final(self).iter.buckets_size == old(self).iter.buckets_size,
+forall|w: MapW, k: nat| #[trigger] map_ok(old(self).iter.db_map.mb(), w) && #[trigger] iter_inv(w, old(self).iter.db_map.mb().n, old(self).iter.key_offset.val as nat, old(self).iter.buckets_idx as int, old(self).iter.remaining_item_count as nat, k) ==>
+    iter_inv(w, old(self).iter.db_map.mb().n, final(self).iter.key_offset.val as nat, final(self).iter.buckets_idx as int, final(self).iter.remaining_item_count as nat, if k < total(w.cs) { (k + 1) as nat } else { k })
+    && iter_next_post(w, old(self).iter.db_map.mb().n, k, r, final(self).iter.key_offset.val as nat, final(self).iter.buckets_idx as int, final(self).iter.remaining_item_count as nat)
+@end
+
+@type src/filedb/inner/dbxxx.rs | DbXxxKeys
+@fn src/filedb/inner/dbxxx.rs | impl<KT: DbMapKeyType> DbXxxKeys<KT> | new
+@opts mutparam=db_map
+@serves C04
+@requires
+db_map.inv()
+@ensures
+db_map.healthy() ==> r is Ok,
+r is Ok ==> r->Ok_0.iter.db_map.same_files(&db_map) && r->Ok_0.iter.buckets_size == db_map.htx_file.0.buckets_size && r->Ok_0.iter.buckets_idx == 0 && r->Ok_0.iter.key_offset.val == 0,
+r is Ok ==> forall|w: MapW| #[trigger] map_ok(db_map.mb(), w) ==> iter_inv(w, db_map.mb().n, 0, 0, r->Ok_0.iter.remaining_item_count as nat, 0)
+@end
+@fn src/filedb/inner/dbxxx.rs | impl<KT: DbMapKeyType> Iterator for DbXxxKeys<KT> | size_hint
+@serves C04
+@ensures
+r.0 == self.iter.remaining_item_count as usize, r.1 == Some(self.iter.remaining_item_count as usize)
+@end
+@fn src/filedb/inner/dbxxx.rs | impl<KT: DbMapKeyType> Iterator for DbXxxKeys<KT> | next
+@opts mapopt
+@serves C04 C15
+@requires
+old(self).iter.db_map.inv(), old(self).iter.db_map.healthy(), old(self).iter.buckets_size == old(self).iter.db_map.htx_file.0.buckets_size,
+exists|w: MapW, k: nat| #[trigger] map_ok(old(self).iter.db_map.mb(), w) && #[trigger] iter_inv(w, old(self).iter.db_map.mb().n, old(self).iter.key_offset.val as nat, old(self).iter.buckets_idx as int, old(self).iter.remaining_item_count as nat, k)
+@ensures
+final(self).iter.db_map.same_files(&old(self).iter.db_map), final(self).iter.buckets_size == old(self).iter.buckets_size,
+forall|w: MapW, k: nat| #[trigger] map_ok(old(self).iter.db_map.mb(), w) && #[trigger] iter_inv(w, old(self).iter.db_map.mb().n, old(self).iter.key_offset.val as nat, old(self).iter.buckets_idx as int, old(self).iter.remaining_item_count as nat, k) ==>
+    iter_inv(w, old(self).iter.db_map.mb().n, final(self).iter.key_offset.val as nat, final(self).iter.buckets_idx as int, final(self).iter.remaining_item_count as nat, if k < total(w.cs) { (k + 1) as nat } else { k })
+    && ({
+        &&& k < total(w.cs) ==> r is Some && is_key(w.kw, final(self).iter.key_offset.val as nat) && r->Some_0.bytes() == kkey(w.kw, final(self).iter.key_offset.val as nat)
+        &&& k == total(w.cs) ==> r is None
+    })
+@end
+
+@type src/filedb/inner/dbxxx.rs | DbXxxValues
+@fn src/filedb/inner/dbxxx.rs | impl<KT: DbMapKeyType> DbXxxValues<KT> | new
+@opts mutparam=db_map
+@serves C04
+@requires
+db_map.inv()
+@ensures
+db_map.healthy() ==> r is Ok,
+r is Ok ==> r->Ok_0.iter.db_map.same_files(&db_map) && r->Ok_0.iter.buckets_size == db_map.htx_file.0.buckets_size && r->Ok_0.iter.buckets_idx == 0 && r->Ok_0.iter.key_offset.val == 0,
+r is Ok ==> forall|w: MapW| #[trigger] map_ok(db_map.mb(), w) ==> iter_inv(w, db_map.mb().n, 0, 0, r->Ok_0.iter.remaining_item_count as nat, 0)
+@end
+@fn src/filedb/inner/dbxxx.rs | impl<KT: DbMapKeyType> Iterator for DbXxxValues<KT> | size_hint
+@serves C04
+@ensures
+r.0 == self.iter.remaining_item_count as usize, r.1 == Some(self.iter.remaining_item_count as usize)
+@end
+@fn src/filedb/inner/dbxxx.rs | impl<KT: DbMapKeyType> Iterator for DbXxxValues<KT> | next
+@opts mapopt
+@serves C04 C15
+@requires
+old(self).iter.db_map.inv(), old(self).iter.db_map.healthy(), old(self).iter.buckets_size == old(self).iter.db_map.htx_file.0.buckets_size,
+exists|w: MapW, k: nat| #[trigger] map_ok(old(self).iter.db_map.mb(), w) && #[trigger] iter_inv(w, old(self).iter.db_map.mb().n, old(self).iter.key_offset.val as nat, old(self).iter.buckets_idx as int, old(self).iter.remaining_item_count as nat, k)
+@ensures
+final(self).iter.db_map.same_files(&old(self).iter.db_map), final(self).iter.buckets_size == old(self).iter.buckets_size,
+forall|w: MapW, k: nat| #[trigger] map_ok(old(self).iter.db_map.mb(), w) && #[trigger] iter_inv(w, old(self).iter.db_map.mb().n, old(self).iter.key_offset.val as nat, old(self).iter.buckets_idx as int, old(self).iter.remaining_item_count as nat, k) ==>
+    iter_inv(w, old(self).iter.db_map.mb().n, final(self).iter.key_offset.val as nat, final(self).iter.buckets_idx as int, final(self).iter.remaining_item_count as nat, if k < total(w.cs) { (k + 1) as nat } else { k })
+    && ({
+        &&& k < total(w.cs) ==> r is Some && is_key(w.kw, final(self).iter.key_offset.val as nat) && r->Some_0@ == vval(w.vw, kvoff(w.kw, final(self).iter.key_offset.val as nat))
+        &&& k == total(w.cs) ==> r is None
+    })
+@end
 @endmod
